@@ -2,7 +2,7 @@
 # usage: tools/mut.sh <unit> <file-rel> <python-regex-old> <new>   -- verify a unit against a mutated scratch copy of /repo/src
 set -e
 M=/tmp/vmut.$$
-mkdir -p $M; cp -r /repo/src $M/src
+mkdir -p $M; cp -r ${VERIF_SRC:-/repo}/src $M/src
 python3 - "$M/$2" "$3" "$4" <<'PY'
 import sys,re
 p,old,new=sys.argv[1:4]
@@ -11,5 +11,5 @@ assert old in s, "pattern not found"
 s=s.replace(old,new,1)
 open(p,'w').write(s)
 PY
-VERIF_REPO=$M /verif/check --unit $1 || true
+VERIF_REPO=$M ${VERIF_CHECK:-/verif/check} --unit $1 || true
 rm -rf $M
